@@ -668,12 +668,49 @@ class SlotEnv(Env):
 # ----------------------------------------------------------------------------
 # frontend construction
 # ----------------------------------------------------------------------------
+class GuardLock(object):
+    """clf.lock with a deadlock detector.  Same interface and semantics as
+    the threading.Lock it wraps; the harness is single threaded, so acquiring
+    it while it is held can never succeed - instead of blocking the check for
+    ever this raises HarnessLimit (and counts the event)."""
+
+    def __init__(self):
+        import threading
+        self._lock = threading.Lock()
+        self.deadlocks = 0
+
+    def acquire(self, blocking=True, timeout=-1):
+        if self._lock.locked() and blocking:
+            self.deadlocks += 1
+            raise HarnessLimit("clf.lock acquired while held: deadlock")
+        return self._lock.acquire(blocking, timeout)
+
+    def release(self):
+        self._lock.release()
+
+    def locked(self):
+        return self._lock.locked()
+
+    def __enter__(self):
+        return self.acquire()
+
+    def __exit__(self, *exc):
+        self.release()
+
+
+def new_frontend():
+    """ContactlessFrontend() without a path: no device yet"""
+    clf = nfc.clf.ContactlessFrontend()
+    clf.lock = GuardLock()
+    return clf
+
+
 def make_frontend(dev, via_open=False):
     """ContactlessFrontend() without a path (no device), then either the
     assignment open() would make, or the real open() with
     nfc.clf.device.connect patched to hand out `dev` (recorded as pseudo
     driver call 'connect' with the lock state)."""
-    clf = nfc.clf.ContactlessFrontend()
+    clf = new_frontend()
     dev.clf = clf
     if not via_open:
         dev.attach(clf)
